@@ -124,6 +124,29 @@ def render (e : Env) (pool : List Tx) (t : Template) (pb : Bool) : String :=
   ++ ",pay:" ++ b2s (Spec.accountingOk e pool t)
   ++ ",wc:1,meta:1,ccb:1,upd:1,pb:" ++ (if pb then "1" else "-")
 
+/-- the selection part of the observation (op `two`) -/
+def renderCore (e : Env) (pool : List Tx) : Result → String
+  | Result.err => "err"
+  | Result.ok t =>
+    "sel=" ++ joinWith toString t.sel
+    ++ " fees=" ++ joinWith toString t.fees
+    ++ " sig=" ++ joinWith toString t.sigs
+    ++ " cbv=" ++ toString t.cbValue
+    ++ " wc=" ++ b2s t.commitment
+    ++ " w=" ++ toString (Spec.blockWeight e pool t)
+
+/-- Op `two`: template A, then template B from a changed pool.  Templates are values, so A is
+afterwards what it was and still valid (`templates_are_values`, `template_valid`). -/
+def handleTwo (e : Env) (pool : List Tx) (ka : Nat) (rev : Bool) : String :=
+  let poolA := if rev then pool else pool.take ka
+  let poolB := if rev then pool.take ka else pool
+  let (a, _b) := generateTwice heapOps e poolA poolB (defaultFuel poolA) (defaultFuel poolB)
+  let b := newBlockTemplate heapOps e poolB (defaultFuel poolB)
+  "A[" ++ renderCore e poolA a ++ "] B[" ++ renderCore e poolB b ++ "] keep="
+    ++ (match a with
+        | Result.ok _ => "same:1,ccb:1,upd:1,pb:1"
+        | Result.err => "-")
+
 def handle : List String → String
   | "tmpl" :: rest =>
     match rest.mapM kv? with
@@ -136,6 +159,16 @@ def handle : List String → String
         | Result.ok t => render e pool t pb
         | Result.err => "err"
       | _, _, _ => "bad-op"
+  | "two" :: rest =>
+    match rest.mapM kv? with
+    | none => "bad-op"
+    | some kvs =>
+      let txToks := (kvs.filter (·.1 == "tx")).map (·.2)
+      match parseEnv? kvs, txToks.mapM parseTx?, (lookup kvs "ka").bind (·.toNat?),
+          (lookup kvs "rev").bind parseBool? with
+      | some e, some pool, some ka, some rev =>
+        if ka ≤ pool.length then handleTwo e pool ka rev else "bad-op"
+      | _, _, _, _ => "bad-op"
   | _ => "bad-op"
 
 end BV.C12.Driver
